@@ -210,6 +210,27 @@ def check_group(op, maxnan, grp, got):
     return None
 
 
+def shrink_pairs(idx, vals, still_fails, budget=400):
+    """drop (index, value) pairs one at a time while `still_fails(idx, vals)` holds"""
+    idx, vals = list(idx), list(vals)
+    changed = True
+    while changed and len(idx) > 1 and budget > 0:
+        changed = False
+        for j in range(len(idx)):
+            i2, v2 = idx[:j] + idx[j + 1:], vals[:j] + vals[j + 1:]
+            budget -= 1
+            if still_fails(i2, v2):
+                idx, vals, changed = i2, v2, True
+                break
+            if budget <= 0:
+                break
+    return idx, vals
+
+
+def nonan(vals):
+    return [None if isnan(v) else v for v in vals]
+
+
 # ----------------------------------------------------------------------------------------------
 class Real:
     """calls into the real code"""
@@ -289,17 +310,28 @@ class Real:
 def oracle_aggregate(ctx, real, idx, vals, op, maxnan, out, minimise=True):
     """property on the real result `out` (None = ValueError). Returns True when a finding was raised."""
     case = {"fn": "aggregate", "aggindex": idx, "inputs": [None if isnan(v) else v for v in vals], "operator": op, "maxnan": maxnan}
+    def mk(i2, v2):
+        return {"fn": "aggregate", "aggindex": i2, "inputs": nonan(v2), "operator": op, "maxnan": maxnan}
     if not nondecreasing(idx):
         if out is not None:
+            if minimise:
+                case = mk(*shrink_pairs(idx, vals, lambda i2, v2: not nondecreasing(i2) and real.aggregate(i2, v2, op, maxnan)[1] is not None))
             ctx.finding("aggregate/accepts_decreasing_index", "an aggregation index that decreases was not rejected", case)
             return True
         return False
     if out is None:
+        if minimise:
+            case = mk(*shrink_pairs(idx, vals, lambda i2, v2: real.aggregate(i2, v2, op, maxnan)[1] is None))
         ctx.finding("aggregate/rejects_nondecreasing_index", "a non-decreasing aggregation index was rejected", case)
         return True
     rs = runs_of(idx)
     if len(out) != len(rs):
-        ctx.finding("aggregate/group_count", f"{len(out)} outputs for {len(rs)} distinct index values", case)
+        if minimise:
+            def bad_count(i2, v2):
+                o2 = real.aggregate(i2, v2, op, maxnan)[1]
+                return o2 is not None and len(o2) != len(runs_of(i2))
+            case = mk(*shrink_pairs(idx, vals, bad_count))
+        ctx.finding("aggregate/group_count", f"the number of outputs differs from the number of distinct index values ({len(out)} for {len(rs)})", case)
         return True
     bad = False
     for (a, b), got in zip(rs, out):
@@ -337,13 +369,18 @@ def oracle_aggregate(ctx, real, idx, vals, op, maxnan, out, minimise=True):
     return bad
 
 
-def oracle_flathomogen(ctx, idx, vals, maxnan, out):
-    case = {"fn": "flathomogen", "aggindex": idx, "inputs": [None if isnan(v) else v for v in vals], "maxnan": maxnan}
+def oracle_flathomogen(ctx, real, idx, vals, maxnan, out):
+    case = {"fn": "flathomogen", "aggindex": idx, "inputs": nonan(vals), "maxnan": maxnan}
+
+    def mk(i2, v2):
+        return {"fn": "flathomogen", "aggindex": i2, "inputs": nonan(v2), "maxnan": maxnan}
     if not nondecreasing(idx):
         if out is not None:
+            case = mk(*shrink_pairs(idx, vals, lambda i2, v2: not nondecreasing(i2) and real.flathomogen(i2, v2, maxnan)[1] is not None))
             ctx.finding("flathomogen/accepts_decreasing_index", "an aggregation index that decreases was not rejected", case)
         return
     if out is None:
+        case = mk(*shrink_pairs(idx, vals, lambda i2, v2: real.flathomogen(i2, v2, maxnan)[1] is None))
         ctx.finding("flathomogen/rejects_nondecreasing_index", "a non-decreasing aggregation index was rejected", case)
         return
     if len(out) != len(vals):
@@ -429,7 +466,7 @@ def body(ctx):
         ctx.count(("homog", tuple(idx), C.flist(vals), maxnan), nontriv,
                   "homog/" + ("rejected" if out is None else branch))
         if oracle and in_quantifier(idx, vals, 0, maxnan):
-            oracle_flathomogen(ctx, idx, vals, maxnan, out)
+            oracle_flathomogen(ctx, real, idx, vals, maxnan, out)
 
     # ---------------- replay of a single recorded case
     rp = getattr(ctx, "replay", None)
